@@ -12,6 +12,7 @@ def run(ctx):
     ctx.run(M.ord13_sort_structure)
     ctx.run(OP.nul3_sentinel_survives_casts)
     ctx.run(OP.pan5_result_type_lattice_total)
+    ctx.run(OP.nul7_reused_null_map_reset_completely)
     return ctx.finish(
         'Equality of results across batchings, compaction states, batch sizes and thread counts is a '
         'relation between runtime values and is NOT decided. Decided are four clauses of it that are '
